@@ -192,9 +192,20 @@ type node struct {
 
 func boot(cfg cacheCfg, kind string) (*node, error) { return bootOn(memorydb.New(), cfg, kind) }
 
+// bootOnExisting starts a node on a database that already holds the genesis block WITHOUT handing NewBlockChain
+// the genesis document (SetupGenesisBlock then keeps the stored chain configuration and does not re-execute the
+// genesis to compare hashes). The consensus state is still made from the genesis document.
+func bootOnExisting(db *memorydb.Database, cfg cacheCfg, kind string) (*node, error) {
+	return bootWith(db, cfg, kind, false)
+}
+
+func bootOn(db *memorydb.Database, cfg cacheCfg, kind string) (*node, error) {
+	return bootWith(db, cfg, kind, true)
+}
+
 // bootOn wires the stack over db: an empty database (the genesis is executed and committed) or the database of a
 // stopped node (a restart: NewBlockChain loads the head, the snapshot journal, ...).
-func bootOn(db *memorydb.Database, cfg cacheCfg, kind string) (n *node, err error) {
+func bootWith(db *memorydb.Database, cfg cacheCfg, kind string, giveGenesis bool) (n *node, err error) {
 	defer func() {
 		if p := recover(); p != nil {
 			err = fmt.Errorf("boot panicked: %v\n%s", p, debug.Stack())
@@ -202,7 +213,11 @@ func bootOn(db *memorydb.Database, cfg cacheCfg, kind string) (n *node, err erro
 	}()
 	n = &node{cfg: cfg, kind: kind, db: db, txErrs: map[common.Hash]string{}}
 	n.gen = makeGenesis(kind)
-	n.bc, err = blockchain.NewBlockChain(n.db, cfg.real(), n.gen)
+	if giveGenesis {
+		n.bc, err = blockchain.NewBlockChain(n.db, cfg.real(), n.gen)
+	} else {
+		n.bc, err = blockchain.NewBlockChain(n.db, cfg.real(), nil)
+	}
 	if err != nil {
 		return nil, fmt.Errorf("NewBlockChain: %w", err)
 	}
